@@ -616,7 +616,11 @@ EXTRA_FILES = {
     # translated signal.rs / mutex.rs / spin_cond conform to SigM / MutexM (TieProto), and conformance is adequate (ProtoSim)
     "C07": ["Kanal/TieProto.lean", "Kanal/ProtoSim.lean"],
     "C17": ["Kanal/TieProto.lean", "Kanal/ProtoSimMutex.lean"],
-    "C13": ["Kanal/TieProto.lean"],            # wait_timeout / is_terminated   # interleaving machine: the logical state moves by whole critical sections = Chan functions
+    "C13": ["Kanal/TieProto.lean"],            # wait_timeout / is_terminated
+    "C14": ["Kanal/Props/C14Fine.lean"],
+    "C02": ["Kanal/Props/RealTime.lean"],      # real-time readings over executions: acceptance order in time, later value never taken first, drain order
+    "C08": ["Kanal/Props/RealTime.lean"],      # at every instant of an execution: accepted-and-unblocked minus delivered <= n; rendezvous
+    "C10": ["Kanal/Props/RealTime.lean"],      # after close has returned: nothing delivered, every later call answers closed       # realtime variants on the translated code: one tryLock, busy => not done, never waits   # interleaving machine: the logical state moves by whole critical sections = Chan functions
 }
 for _pid, _files in EXTRA_FILES.items():
     PROPS[_pid]["props_files"] = list(PROPS[_pid]["props_files"]) + _files
